@@ -176,8 +176,11 @@ def check_case(case, bdays_cache=None):
     day_types = cal.expected_day_types(pre, post)
 
     try:
+        # another clock with the OPPOSITE flags is built, and stays alive, before this one is walked: flags belong to the object
+        other = DailyBusinessDaySimulationEngine(_ts(start), _ts(end), pre_market=not pre, post_market=not post)
         events = list(engine)
         raw = [(ev.ts, ev.event_type) for ev in events]
+        del other
     except Exception as exc:
         results.append(("dates-exactly-business-days", False, "%s: %s" % (type(exc).__name__, exc),
                         "%d business days" % len(bdays)))
